@@ -61,8 +61,22 @@ def r181(prog, chk):
     oc = ix.get_class("ufo2ft.util.OpenTypeCategories")
     fields = list(oc.annotations)
     load = oc.methods["load"]
-    ret = [r for r in A.returns_of(load.node)]
-    need(ret and isinstance(ret[0].value, ast.Call), "cannot interpret OpenTypeCategories.load")
+    allret = [r for r in A.returns_of(load.node)]
+    # every returned value is a freshly built cls(...) from the font's current lib (no remembered result)
+    fresh = []
+    for r in allret:
+        v = r.value
+        if isinstance(v, ast.Name):
+            ds = prog.reaching(load, v.id, v)
+            v = ds[0].value if len(ds) == 1 else None
+        okr = isinstance(v, ast.Call) and isinstance(v.func, ast.Name) and v.func.id == load.params()[0]
+        if okr:
+            fresh.append(v)
+        chk.ob("R18.1", f"{load.short}|{A.keytext(load.node, r)[:50]}|categories are parsed from the font's lib on every call", okr, where(load, r), detail="return cls(...)", nontrivial=False,
+               message=f"{load.short} can return something that was not built from the font's current public.openTypeCategories in this call (`{T(r, 50)}`): a remembered result is stale "
+                       f"when the lib entry is edited in place (the DottedCircle filter does that)")
+    need(fresh, "cannot interpret OpenTypeCategories.load")
+    ret = [type("R", (), {"value": fresh[0]})()]
     # map category string -> set name
     cat_to_set = {}
     for n in A.body_nodes(load.node):
@@ -373,6 +387,9 @@ def r185(prog, chk):
 
 
 MUTANTS = [
+    M("parsed categories remembered in the font's tempLib (seeded C18d)", "ufo2ft/util.py", "OpenTypeCategories.load",
+      "openTypeCategories = font.lib.get(OPENTYPE_CATEGORIES_KEY, {})",
+      "openTypeCategories = font.lib.get(OPENTYPE_CATEGORIES_KEY, {})\ncached = getattr(font, 'tempLib', {}).get(OPENTYPE_CATEGORIES_KEY)\nif cached is not None and cached[0] is openTypeCategories:\n    return cached[1]", rule="R18.1", count=2),
     M("carets at 0 filtered out (seeded C18b)", "ufo2ft/featureWriters/gdefFeatureWriter.py", "GdefFeatureWriter._getLigatureCarets",
       "carets = dict()", "carets = dict()\nfirstX = next(filter(None, (a.x for g in self.context.orderedGlyphSet.values() for a in g.anchors)), None)", rule="R18.6"),
     M("cursive anchors with x == 0 skipped", "ufo2ft/featureWriters/cursFeatureWriter.py", "CursFeatureWriter._getAnchors",
